@@ -19,7 +19,8 @@ from rig import common
 from rig.common import hexs
 
 DRV_SRC = [os.path.join(common.VERIF, "harness", "c13_drv.c"), "src/proto/http.c"]
-ENV = {"ASAN_OPTIONS": "detect_leaks=0:symbolize=0:allocator_may_return_null=1:print_legend=0:handle_abort=0",
+ENV = {"ASAN_OPTIONS": "detect_leaks=0:symbolize=0:allocator_may_return_null=1:print_legend=0:handle_abort=0:"
+                       "quarantine_size_mb=1:thread_local_quarantine_size_kb=64",
        "UBSAN_OPTIONS": "print_stacktrace=0:halt_on_error=1"}
 
 # ------------------------------------------------------------------------------------------ builds
@@ -79,10 +80,11 @@ def crash_kind(report, status):
     if status in ("sig11", "sig7"): return "segv"
     return "abort-" + status
 
-def run_driver(exe, mode, lines, timeout):
-    """-> list parallel to lines: ('R', fields-dict) | ('X', fn, kind, report)"""
+def run_driver(exe, mode, lines, timeout, budget=0):
+    """-> list parallel to lines: ('R', fields-dict) | ('X', fn, kind, report) | ('T',) not run (crash budget used up)"""
     res = [None] * len(lines)
-    rc, out = common.sh([exe, mode], stdin=("\n".join(lines) + "\n").encode(), timeout=timeout, env=ENV)
+    if not lines: return res
+    rc, out = common.sh([exe, mode, str(budget)], stdin=("\n".join(lines) + "\n").encode(), timeout=timeout, env=ENV)
     if rc == 124: raise common.Infra("driver timeout (%ss) in mode %s" % (timeout, mode))
     pend = []
     for ln in out.split("\n"):
@@ -91,12 +93,15 @@ def run_driver(exe, mode, lines, timeout):
             try: i = int(p[1])
             except ValueError: raise common.Infra("garbled driver line: " + ln[:200])
             f = dict(x.split("=", 1) for x in p[3:] if "=" in x); f["_op"] = p[2] if len(p) > 2 else ""
-            res[i] = ("R", f); pend = []
+            if len(p) > 3: res[i] = ("R", f)        # "R <idx> <op>" alone is the start of a case that then faulted
+            pend = []
         elif ln.startswith("X "):
             m = re.match(r"X (\d+) fn=(\S+) st=(\S+)", ln)
             if not m: raise common.Infra("garbled driver line: " + ln[:200])
             rep = "\n".join(pend)
             res[int(m.group(1))] = ("X", m.group(2), crash_kind(rep, m.group(3)), rep[-1800:]); pend = []
+        elif ln.startswith("T "):
+            for i in range(int(ln.split()[1]), len(lines)): res[i] = ("T",)
         elif ln.strip():
             if len(pend) < 60: pend.append(ln[:300])
     if rc != 0 or any(r is None for r in res):
@@ -131,34 +136,53 @@ def run_gen(g, seed):
     return g
 
 # ------------------------------------------------------------------------------------------ case construction
-# every builder returns a list of (line, meta); meta = dict(shape=..., plus what the comparator needs)
+# every builder returns a list of (line, meta); meta = dict(op=, shape=, plus what the comparator needs).
+# Ops that make several library calls are split into phases (last argument) so that one faulting call
+# does not hide the calls after it.
 def b(c): return hexs(bytes(c["bytes"]))
 
 def mk_dns_name(c):
-    out = []
+    out = []; hx = b(c)
     for w in c["walks"]:
         nm = bytes(w["name"])
         caps = sorted({len(nm), len(nm) + 1, len(nm) + 2, 300} - {0}) if w["ok"] else [300, 2]
         for cap in caps:
-            out.append(("dns_name %s %d %d" % (b(c), w["off"], cap), {"op": "dns_name", "shape": w["why"], "w": w, "cap": cap}))
+            out.append(("dns_name %s %d %d" % (hx, w["off"], cap), {"op": "dns_name", "shape": w["why"], "w": w, "cap": cap}))
+        out.append(("dns_name %s %d 0" % (hx, w["off"]), {"op": "dns_nlen", "shape": w["why"], "w": w}))
     body = bytes(c["bytes"][12:])
     if body:
-        out.append(("dns_lbl %s" % hexs(body), {"op": "dns_lbl", "shape": "labels-complete" if c["lbl_ok"] else "labels-cut",
-                                                "ok": c["lbl_ok"], "size": c["lbl_end"] - 12}))
+        sh = "labels-complete" if c["lbl_ok"] else "labels-cut"
+        out.append(("dns_lbl %s 0" % hexs(body), {"op": "dns_lbl", "shape": sh, "ok": c["lbl_ok"], "size": c["lbl_end"] - 12}))
+        out.append(("dns_lbl %s 1" % hexs(body), {"op": "dns_lbl1", "shape": sh}))
+    return out
+def mk_dns_msg(c):
+    hx = b(c)
+    out = [("dns_msg %s %d" % (hx, ph), {"op": "dns_msg%d" % ph, "shape": c["why"], "c": c}) for ph in (0, 1, 2)]
+    if c["ok"]: out.append(("dns_msg %s 3" % hx, {"op": "dns_msg3", "shape": c["why"], "c": c}))
+    return out
+def mk_rad(c):
+    hx = b(c)
+    out = [("rad %s 0" % hx, {"op": "rad0", "shape": c["why"], "c": c})]
+    if not c["must_err"]:
+        out += [("rad %s %d" % (hx, ph), {"op": "rad%d" % ph, "shape": c["why"], "c": c}) for ph in (1, 2, 3, 4, 5)]
     return out
 def mk_simple(op):
     def f(c): return [("%s %s" % (op, b(c)), {"op": op, "shape": c["why"], "c": c})]
     return f
-def mk_tok(op):
-    def f(c): return [("%s %s" % (op, b(c)), {"op": op, "shape": "%s:%s" % (c["kind"], c["tok"])})]
-    return f
-def mk_url(c):
-    n = len(c["bytes"]); sh = "%s:%s" % (c["kind"], c["tok"])
-    return [("http_url %s %d" % (b(c), cap), {"op": "http_url", "shape": sh}) for cap in sorted({1, 2, n, n + 1} - {0})]
+PHASES = {"http_req": (None,), "http_resp": (None,), "http_chk": (None,), "http_hdr": (0, 1, 2), "http_qry": (0, 1),
+          "wsp": (0, 1, 2, 3, 4), "sdp": (0, 1, 2)}
+def mk_text(c):
+    fam = c["fam"]; sh = "%s:%s" % (c["kind"], c["tok"]); hx = b(c)
+    if fam == "http_url":
+        n = len(c["bytes"])
+        return [("http_url %s %d" % (hx, cap), {"op": "http_url", "shape": sh}) for cap in sorted({1, 2, n, n + 1} - {0})]
+    return [(("%s %s" % (fam, hx)) if ph is None else ("%s %s %d" % (fam, hx, ph)), {"op": fam, "shape": sh}) for ph in PHASES[fam]]
 def mk_ts(c):
     one = bytes(c["bytes"])
-    return [("ts %s" % hexs(one), {"op": "ts", "shape": c["why"], "c": c}),
-            ("ts %s" % hexs(one + one), {"op": "ts2", "shape": c["why"] + "/x2", "c": c})]
+    return [("ts %s 0" % hexs(one), {"op": "ts", "shape": c["why"], "c": c}),
+            ("ts %s 1" % hexs(one), {"op": "ts1", "shape": c["why"], "c": c}),
+            ("ts %s 1" % hexs(one + one), {"op": "ts1", "shape": c["why"] + "/x2", "c": c}),
+            ("ts %s 2" % hexs(one + one), {"op": "ts2", "shape": c["why"] + "/x2", "c": c})]
 
 # ------------------------------------------------------------------------------------------ comparators
 def I(f, k): return int(f[k])
@@ -169,21 +193,23 @@ def cmp_case(meta, f):
         w = meta["w"]; nm = bytes(w["name"])
         if not w["ok"]:
             if I(f, "rc") == 0: return ("dns_msg_sequence_of_labels2name", "accepts-malformed")
-            if I(f, "rc2") == 0: return ("dns_msg_sequence_of_labels_get_name_len", "accepts-malformed")
-        else:
-            if I(f, "rc") == 0 and (I(f, "len") != len(nm) or common.unhex(f["name"]) != nm):
-                return ("dns_msg_sequence_of_labels2name", "wrong-result")
-            if I(f, "rc2") == 0 and I(f, "len2") != len(nm):
-                return ("dns_msg_sequence_of_labels_get_name_len", "wrong-result")
+        elif I(f, "rc") == 0 and (I(f, "len") != len(nm) or common.unhex(f["name"]) != nm):
+            return ("dns_msg_sequence_of_labels2name", "wrong-result")
+    elif op == "dns_nlen":
+        w = meta["w"]
+        if not w["ok"]:
+            if I(f, "rc") == 0: return ("dns_msg_sequence_of_labels_get_name_len", "accepts-malformed")
+        elif I(f, "rc") == 0 and I(f, "len") != len(w["name"]):
+            return ("dns_msg_sequence_of_labels_get_name_len", "wrong-result")
     elif op == "dns_lbl":
         if not meta["ok"] and I(f, "rc") == 0: return ("SequenceOfLabelsGetSize", "accepts-malformed")
         if meta["ok"] and I(f, "rc") == 0 and I(f, "size") != meta["size"]: return ("SequenceOfLabelsGetSize", "wrong-result")
-    elif op == "dns_msg":
+    elif op in ("dns_msg0", "dns_msg3"):
         c = meta["c"]
         if I(f, "rc") == 0:
             if not c["ok"]: return ("dns_msg_info_get", "accepts-malformed")
             if [I(f, "qd"), I(f, "an"), I(f, "ns"), I(f, "ar"), I(f, "msz")] != c["offs"]: return ("dns_msg_info_get", "wrong-result")
-    elif op == "rad":
+    elif op == "rad0":
         if meta["c"]["must_err"] and I(f, "rc") == 0: return ("radius_pkt_chk", "accepts-malformed")
     elif op == "dhcp":
         if meta["c"]["must_refuse"] and I(f, "rc") == 0: return ("dhcp4_hdr_check", "accepts-malformed")
@@ -204,37 +230,22 @@ def plan(ctx):
     T = "" if q else "_thorough"
     gens = [
         (Gen("dns-name", "HpDnsNameGen", "HpDnsNameGen%s.cfg" % T, xss="64m", workers=(2 if q else 4)), mk_dns_name),
+        (Gen("text", "HpText", "HpText%s.cfg" % T, workers=(2 if q else 4)), mk_text),
+        (Gen("dns-msg", "HpDnsMsgGen", "HpDnsMsgGen%s.cfg" % T, xss="64m", workers=(1 if q else 4)), mk_dns_msg),
+        (Gen("radius", "HpRadius", "HpRadius%s.cfg" % T, workers=(1 if q else 4)), mk_rad),
         (Gen("dns-name-chain", "HpDnsNameGen", "HpDnsNameGen_chain.cfg", xss="64m"), mk_dns_name),
-        (Gen("dns-msg", "HpDnsMsgGen", "HpDnsMsgGen%s.cfg" % T, xss="64m", workers=(1 if q else 4)), mk_simple("dns_msg")),
-        (Gen("radius", "HpRadius", "HpRadius%s.cfg" % T, workers=(1 if q else 4)), mk_simple("rad")),
         (Gen("dhcp4", "HpDhcp4", "HpDhcp4.cfg"), mk_simple("dhcp")),
-        (Gen("http-req", "HpHttp", "HpHttp_req%s.cfg" % T), mk_tok("http_req")),
-        (Gen("http-resp", "HpHttp", "HpHttp_resp%s.cfg" % T), mk_tok("http_resp")),
-        (Gen("http-hdr", "HpHttp", "HpHttp_hdr%s.cfg" % T), mk_tok("http_hdr")),
-        (Gen("http-qry", "HpHttp", "HpHttp_qry%s.cfg" % T), mk_tok("http_qry")),
-        (Gen("http-chunked", "HpHttp", "HpHttp_chk%s.cfg" % T), mk_tok("http_chk")),
-        (Gen("http-url", "HpHttp", "HpHttp_url%s.cfg" % T), mk_url),
-        (Gen("http-wsp", "HpHttp", "HpHttp_wsp%s.cfg" % T), mk_tok("wsp")),
-        (Gen("sdp", "HpMisc", "HpMisc_sdp%s.cfg" % T), mk_tok("sdp")),
         (Gen("rtp", "HpRtp", "HpRtp.cfg"), mk_simple("rtp")),
         (Gen("sap", "HpSap", "HpSap.cfg"), mk_simple("sap")),
         (Gen("mpeg-ts", "HpTs", "HpTs.cfg"), mk_ts),
     ]
-    n = 1 if q else 6           # simulation volume multiplier
+    n = 1 if q else 8           # simulation volume multiplier
     sims = [
-        (Gen("dns-name/sim", "HpDnsNameGen", "HpDnsNameGen_sim.cfg", sim=40 * n, depth=14, xss="64m"), mk_dns_name),
-        (Gen("dns-msg/sim", "HpDnsMsgGen", "HpDnsMsgGen_sim.cfg", sim=60 * n, depth=10, xss="64m"), mk_simple("dns_msg")),
-        (Gen("radius/sim", "HpRadius", "HpRadius_sim.cfg", sim=60 * n, depth=20), mk_simple("rad")),
-        (Gen("http-req/sim", "HpHttp", "HpHttp_req_sim.cfg", sim=60 * n, depth=11), mk_tok("http_req")),
-        (Gen("http-hdr/sim", "HpHttp", "HpHttp_hdr_sim.cfg", sim=60 * n, depth=13), mk_tok("http_hdr")),
-        (Gen("http-qry/sim", "HpHttp", "HpHttp_qry_sim.cfg", sim=40 * n, depth=15), mk_tok("http_qry")),
-        (Gen("http-chunked/sim", "HpHttp", "HpHttp_chk_sim.cfg", sim=60 * n, depth=11), mk_tok("http_chk")),
-        (Gen("http-url/sim", "HpHttp", "HpHttp_url_sim.cfg", sim=40 * n, depth=13), mk_url),
-        (Gen("http-wsp/sim", "HpHttp", "HpHttp_wsp_sim.cfg", sim=40 * n, depth=13), mk_tok("wsp")),
-        (Gen("sdp/sim", "HpMisc", "HpMisc_sdp_sim.cfg", sim=60 * n, depth=11), mk_tok("sdp")),
+        (Gen("text/sim", "HpText", "HpText_sim.cfg", sim=60 * n, depth=16), mk_text),
+        (Gen("dns-name/sim", "HpDnsNameGen", "HpDnsNameGen_sim.cfg", sim=10 * n, depth=14, xss="64m"), mk_dns_name),
+        (Gen("dns-msg/sim", "HpDnsMsgGen", "HpDnsMsgGen_sim.cfg", sim=15 * n, depth=10, xss="64m"), mk_dns_msg),
+        (Gen("radius/sim", "HpRadius", "HpRadius_sim.cfg", sim=15 * n, depth=20), mk_rad),
     ]
-    if not q:
-        sims.append((Gen("http-resp/sim", "HpHttp", "HpHttp_resp_sim.cfg", sim=200, depth=11), mk_tok("http_resp")))
     return gens + sims
 
 def run(ctx):
@@ -267,14 +278,23 @@ def run(ctx):
     for ln, me in zip(lines, metas):
         if ln not in seen: seen[ln] = 1; L.append(ln); M.append(me)
     lines, metas = L, M
-    modes = [("asan", "heap"), ("guard", "ghi")] + ([] if ctx.quick else [("guard", "glo")])
+    if os.environ.get("C13_DUMP"): open(os.environ["C13_DUMP"], "w").write("\n".join(lines) + "\n")
+    # guard-page builds first (a fault costs microseconds there); the ASan+UBSan build then runs every case that did
+    # not already fault at the end of its block (each ASan abort costs a process)
+    gmodes = [("guard", "ghi")] + ([] if ctx.quick else [("guard", "glo")])
     results = {}
-    def drv(bm):
-        return run_driver(exes[bm[0]], bm[1], lines, timeout=(400 if ctx.quick else 2400))
     t0 = time.time()
-    with ThreadPoolExecutor(max_workers=3) as ex:
-        for bm, res in zip(modes, ex.map(drv, modes)): results[bm] = res
-    ctx.log("driver: %d cases x %d builds in %.1fs" % (len(lines), len(modes), time.time() - t0))
+    for bm in gmodes:
+        results[bm] = run_driver(exes[bm[0]], bm[1], lines, timeout=(300 if ctx.quick else 1800))
+    surv = [i for i in range(len(lines)) if all(results[bm][i][0] != "X" for bm in gmodes)]
+    budget = 1500 if ctx.quick else 20000
+    ares = run_driver(exes["asan"], "heap", [lines[i] for i in surv], timeout=(400 if ctx.quick else 2400), budget=budget)
+    am = ("asan", "heap"); results[am] = [("S",)] * len(lines)
+    for i, r in zip(surv, ares): results[am][i] = r
+    modes = gmodes + [am]
+    truncated = sum(1 for r in ares if r[0] == "T")
+    ctx.log("driver: %d cases; guard builds %d, ASan build on the %d that did not fault (%d not run: crash budget) in %.1fs"
+            % (len(lines), len(gmodes), len(surv), truncated, time.time() - t0))
 
     fails = {}      # key -> [count, first line, detail, builds]
     def note(key, line, detail, build):
@@ -287,6 +307,7 @@ def run(ctx):
         crashed = False
         for bm in modes:
             r = results[bm][i]; bname = "%s/%s" % bm
+            if r[0] in ("S", "T"): continue
             if r[0] == "X":
                 crashed = True
                 note("%s:%s:%s" % (r[1], r[2], meta["shape"]), ln, "build %s\ncase %s\n%s" % (bname, ln, r[3]), bname)
@@ -317,14 +338,17 @@ def run(ctx):
             _, o = common.sh([exes["asan"], "heap"], stdin=(ln + "\n").encode(), timeout=60, env=env)
             detail += "\n--- symbolized re-run ---\n" + o[-2500:]
         ctx.fail(key, "%d case(s), builds %s; first:\n%s" % (cnt, sorted(builds), detail), {"case": ln, "builds": sorted(builds)})
+    if truncated and all(k in known for k in fails):
+        raise common.Infra("ASan build: crash budget (%d) used up by registered findings only, %d cases not run" % (budget, truncated))
     nontriv = sum(1 for m in metas if m["shape"] not in ("plain", "compressed", "fits", "struct-ok", "ok", "hdr-full"))
-    ctx.add(evaluations=len(lines) * len(modes), distinct_nontrivial=nontriv, cases=len(lines),
+    ctx.add(evaluations=sum(1 for bm in modes for r in results[bm] if r[0] in ("R", "X")), distinct_nontrivial=nontriv, cases=len(lines),
+            asan_cases_skipped_after_guard_fault=len(lines) - len(surv), asan_cases_not_run_crash_budget=truncated,
             crashing_cases=crashes, distinct_failure_keys=len(fails), dns_names_valid_but_refused=refused_valid,
             builds=["clang -O1 ASan+UBSan exact-size heap blocks", "gcc -O1 guard page after the block"] +
                    ([] if ctx.quick else ["gcc -O1 guard page before the block"]))
     ctx.cov["per_generator"] = per_gen
     ctx.add(samples=[{"line": lines[i], "shape": metas[i]["shape"], "gen": metas[i]["gen"],
-                      "answer": (results[modes[0]][i][1] if results[modes[0]][i][0] == "R" else list(results[modes[0]][i][1:3]))}
+                      "answer": ({k: v for k, v in results[modes[0]][i][1].items() if k != "_op"} if results[modes[0]][i][0] == "R" else list(results[modes[0]][i][1:3]))}
                      for i in range(0, len(lines), max(1, len(lines) // 10))][:10])
     ctx.cov["rule"] = ("cases = reachable states of the Hp* generator specs (exhaustive over the configured item alphabets and "
                        "lengths, plus TLC -simulate traces seeded with VERIF_SEED), each rendered to bytes by the spec and run in every "
